@@ -202,3 +202,19 @@ DOCS = {
     "CCZ": lambda: lastblock(8, [[1, 0], [0, -1]]),
     "DEUTSCH": lambda t: lastblock(8, [[I * cos(t), sin(t)], [sin(t), I * cos(t)]]),
 }
+
+
+def generalized_rbs(m_in, m_out, theta, phi):
+    """Documented gRBS: a Givens rotation between |1..1>_in|0..0>_out and |0..0>_in|1..1>_out
+    (qubits_in first, then qubits_out, first listed qubit most significant):
+      [out,out] = e^{-i phi} cos theta   [out,in] = e^{-i phi} sin theta
+      [in,out]  = -e^{i phi} sin theta   [in,in]  = e^{i phi} cos theta     identity elsewhere."""
+    n = m_in + m_out
+    i_in = (2**m_in - 1) << m_out
+    i_out = 2**m_out - 1
+    mat = [[1 if i == j else 0 for j in range(2**n)] for i in range(2**n)]
+    mat[i_out][i_out] = exp(-I * phi) * cos(theta)
+    mat[i_out][i_in] = exp(-I * phi) * sin(theta)
+    mat[i_in][i_out] = -exp(I * phi) * sin(theta)
+    mat[i_in][i_in] = exp(I * phi) * cos(theta)
+    return mat
